@@ -1,10 +1,10 @@
-(* C02 — no permanent stall (PARTIAL by design: the wall-clock bound across goroutine wake-ups is not carried
-   by the model).  What is proved: every ingredient of the progress argument, each over all states / histories
+(* C02 — no permanent stall (partial: the wall-clock bound across goroutine wake-ups is not carried by the model;
+   theorems 9-11 compose the ingredients into "every fault-free round advances, the queue drains").  What is proved: every ingredient of the progress argument, each over all states / histories
    of its model; the composition "every fault-free round strictly advances the cumulative ack" is argued in
    DESIGN.md and searched for counterexamples by the simulator (heal-then-drain scenarios, zero-window episodes,
    invariant monitors at every quiescent point).  Only statements closed by [exact]. *)
 From Coq Require Import ZArith Bool List.
-From Sctp Require Import Gen SnaProofs Sender SenderProofs RPQ RPQProofs RQ RQProofs TimerFsm TimerProofs.
+From Sctp Require Import Gen SnaProofs Sender SenderProofs RPQ RPQProofs RQ RQProofs TimerFsm TimerProofs Live LiveSender LiveProofs.
 Import ListNotations.
 Open Scope Z_scope.
 
@@ -77,6 +77,87 @@ Theorem c02_cwnd_floor_after_t3 : forall s, 0 < st_mtu s < 1073741824 ->
   st_ssthresh (t3_step s) = Z.max (st_cwnd s / 2) (4 * st_mtu s).
 Proof. exact t3_cwnd. Qed.
 Print Assumptions c02_cwnd_floor_after_t3.
+
+(* ------------------------------------------------------------------------------------------------------
+   9-11. The composition (coq/model/Live.v): one fault-free retransmission round of two endpoints =
+   T3 expiry -> retransmission of what rtx_select picks -> delivery -> storage under the admission rule ->
+   cumulative point moved over everything consecutive -> SACK (cumulative TSN + gap blocks of the tracker)
+   -> delivery -> handleSack.  LInv is the relation between the two endpoints that every earlier history
+   (whatever was lost, duplicated, reordered, whatever back-off or window collapse happened) leaves behind:
+   the receiver's cumulative point lies between the sender's ack point and the highest TSN sent, it holds
+   only TSNs that were sent, chunks the sender has marked acknowledged were accepted by the receiver, nothing
+   consecutive is left unpopped; chunks are reliable (not abandoned) and at most one MTU long.
+   Hypotheses of the property itself: the application keeps reading and the messages fit, i.e. the window
+   credit is positive when the lowest outstanding chunk arrives (0 < credit 0); the retransmission gate
+   (MTU / burst budget) admits one chunk of at most one MTU.
+   ------------------------------------------------------------------------------------------------------ *)
+
+(* 9. every fault-free round strictly advances the cumulative acknowledgement (by d >= 1 chunks, also across
+      the 2^32 wrap: K is the unbounded index of the ack point), the SACK is never rejected, and the
+      invariant holds again *)
+Theorem c02_fault_free_round_advances : forall gate credit arwnd st K g k0,
+  LInv st K g k0 -> st_infl (lv_s st) <> [] ->
+  (forall x, 0 <= x <= st_mtu (lv_s st) -> gate x = true) -> 0 < credit 0 ->
+  exists st' d g', lv_round gate credit arwnd st = Some st' /\ 1 <= d /\ LInv st' (K + d) g' k0 /\
+    Z.of_nat (length (st_infl (lv_s st'))) = Z.of_nat (length (st_infl (lv_s st))) - d /\
+    st_mtu (lv_s st') = st_mtu (lv_s st).
+Proof. exact round_progress. Qed.
+Print Assumptions c02_fault_free_round_advances.
+
+(* 10. hence within at most as many rounds as there are chunks in flight (each round lasts at most one RTO,
+       which C19 bounds by RTO.max) the in-flight queue is empty and the ack point has reached the highest
+       TSN sent *)
+Theorem c02_drains_within_as_many_rounds_as_chunks : forall gate credit arwnd k0, 0 < credit 0 -> forall N st K g,
+  (length (st_infl (lv_s st)) <= N)%nat -> LInv st K g k0 ->
+  (forall x, 0 <= x <= st_mtu (lv_s st) -> gate x = true) ->
+  exists m st' g', (m <= N)%nat /\ lv_rounds m gate credit arwnd st = Some st' /\
+    LInv st' (K + Z.of_nat (length (st_infl (lv_s st)))) g' k0 /\ st_infl (lv_s st') = [].
+Proof. exact drains. Qed.
+Print Assumptions c02_drains_within_as_many_rounds_as_chunks.
+
+(* 11. the invariant is satisfiable in the worst starting point -- every chunk that was ever sent has been
+       lost and the receiver still has nothing -- for every window size and every initial TSN; from there
+       the queue drains and the ack point reaches K + n *)
+Theorem c02_everything_lost_still_drains : forall gate credit arwnd s K m,
+  Sl s K -> 1 <= m < 2147483584 -> 0 < st_mtu s ->
+  (forall i c, nth_error (st_infl s) i = Some c -> sc_acked c = false /\ sc_aband c = false /\ 0 <= sc_len c <= st_mtu s) ->
+  (forall x, 0 <= x <= st_mtu s -> gate x = true) -> 0 < credit 0 ->
+  exists r st', (r <= length (st_infl s))%nat /\
+    lv_rounds r gate credit arwnd (mkLv s (rpq_init (rpq_new m) (wrap32 K))) = Some st' /\
+    st_infl (lv_s st') = [] /\ st_cum (lv_s st') = wrap32 (K + Z.of_nat (length (st_infl s))).
+Proof. exact all_lost_drains. Qed.
+Print Assumptions c02_everything_lost_still_drains.
+
+(* the SACK half on its own: a SACK that lies inside what is in flight is never rejected by handleSack, moves
+   the ack point exactly there and pops exactly the acknowledged prefix *)
+Theorem c02_genuine_sack_never_rejected : forall s K d arwnd gaps,
+  Sl s K -> 0 <= d <= Z.of_nat (length (st_infl s)) ->
+  gaps_in_range gaps (Z.of_nat (length (st_infl s)) - d) ->
+  exists s', sack_step s (wrap32 (K + d)) arwnd gaps = SOk s' /\
+    st_cum s' = wrap32 (K + d) /\ st_state s' = st_state s /\ st_mtu s' = st_mtu s /\ st_mincwnd s' = st_mincwnd s /\
+    (st_infl s' <> [] -> st_front s' = wrap32 (K + d + 1)) /\
+    flags_le (st_infl s') (skipn (Z.to_nat d) (st_infl s)) (fun k => in_gaps gaps (Z.of_nat k + 1)).
+Proof. exact sack_total. Qed.
+Print Assumptions c02_genuine_sack_never_rejected.
+
+(* non-vacuity, across the 2^32 wrap: ack point at 2^32-3, five chunks in flight (one of them gap-acked, the
+   receiver holds exactly that one), cwnd about to collapse to one MTU: five rounds, the ack point runs
+   4294967293 -> 4294967295 -> 0 -> 1 -> 2, nothing is left in flight and both streams' buffered amounts are 0 *)
+Example c02_example_rounds_across_the_wrap :
+  let K := 4294967293 in
+  let s0 := mkS c_established (wrap32 K) (wrap32 (K + 1))
+              [mkSC 1 1000 false false 0 false; mkSC 1 0 true false 0 false; mkSC 2 700 false false 1 false;
+               mkSC 1 1000 false false 0 false; mkSC 1 300 false false 0 false]
+              3000 8000 0 9000 0 false 0 false 1200 0 0 0 0 [(1, 2300); (2, 700)] in
+  let st0 := mkLv s0 (fst (push (rpq_init (rpq_new 2000) (wrap32 K)) (wrap32 (K + 2)))) in
+  map (fun n => match lv_rounds n (fun _ => true) (fun _ => 100000) 100000 st0 with
+                | Some st => Some (st_cum (lv_s st), length (st_infl (lv_s st)))
+                | None => None end) [0; 1; 2; 3; 4; 5]%nat =
+    [Some (4294967293, 5%nat); Some (4294967295, 3%nat); Some (0, 2%nat); Some (1, 1%nat); Some (2, 0%nat); Some (2, 0%nat)] /\
+  match lv_rounds 5 (fun _ => true) (fun _ => 100000) 100000 st0 with
+  | Some st => st_nbytes (lv_s st) = 0 /\ st_buffered (lv_s st) = [(1, 0); (2, 0)] /\ cum (lv_q st) = 2
+  | None => False end.
+Proof. vm_compute. repeat split. Qed.
 
 Example c02_example_t3_round :
   let s := mkS c_established 99 100 [mkSC 1 1000 false false 0 false; mkSC 1 0 true false 0 false; mkSC 2 700 false false 1 false]
